@@ -449,7 +449,9 @@ func (rw *ReadWriter) Read(m *MessageRaw, isV2 bool) (Message, error) {
 		// in this latter case it must be filled with zeros to support empty-byte de-truncation
 		// and extension fields
 		if len(payload) < int(rw.sizeExtended) {
-			payload = append(payload, bytes.Repeat([]byte{0x00}, int(rw.sizeExtended)-len(payload))...)
+			// clip the capacity, in order not to write into the caller's buffer
+			payload = append(payload[:len(payload):len(payload)],
+				bytes.Repeat([]byte{0x00}, int(rw.sizeExtended)-len(payload))...)
 		}
 	} else {
 		// in V1 buffer must fit message perfectly
